@@ -92,7 +92,16 @@ impl Ctx {
         self.rep.case(stream, &req, &model, &imp, !input.is_empty(), &sig);
         if self.search && model != imp {
             let bs = base.map(|b| b.as_str().to_string());
-            if let Some(w) = self.violates_standard(bs.as_deref().zip(base), input) {
+            // the ten API strings of the MODEL's result (= the unchanged code's behaviour)
+            let model_api = match model.strip_prefix("ok ") {
+                Some(tok) => {
+                    let g = self.drv.ask_with(&format!("qget {} {}", self.dbg, tok), url_oracle);
+                    g.split(' ').map(|x| if x == "panic" { "panic".to_string() } else { unhexs(x) }).collect::<Vec<_>>().join(" | ")
+                }
+                None if model.starts_with("err") => "fail".to_string(),
+                None => model.clone(),
+            };
+            if let Some(w) = self.violates_standard_with(bs.as_deref().zip(base), input, Some(&model_api)) {
                 if self.rep.failures.len() < 20 {
                     self.rep.failures.push((case01(bs.as_deref(), input), w));
                 }
@@ -118,6 +127,11 @@ impl Ctx {
     /// C01 on the implementation for one case: Some(description) when the implementation deviates from
     /// the specification model outside Known_C01
     fn violates_standard(&mut self, base: Option<(&str, &Url)>, input: &str) -> Option<String> {
+        self.violates_standard_with(base, input, None)
+    }
+    /// `model_api`: what the unchanged code gave on this input (when known): a deviation from the
+    /// Standard on an input where the unchanged code conformed is a violation even inside Known_C01
+    fn violates_standard_with(&mut self, base: Option<(&str, &Url)>, input: &str, model_api: Option<&str>) -> Option<String> {
         let drv2 = self.spec.as_mut()?;
         let req = format!("parse {} {}", base.map(|b| hexs(b.0)).unwrap_or_else(|| "~".into()), hexs(input));
         let ans = drv2.ask_with(&req, spec_oracle);
@@ -133,7 +147,7 @@ impl Ctx {
         if imp == "panic" {
             return Some(format!("parsing {:?} against {:?} panics", input, base.map(|b| b.0)));
         }
-        if spec != imp && known_c01(base.map(|b| b.1), input).is_none() {
+        if spec != imp && (known_c01(base.map(|b| b.1), input).is_none() || model_api == Some(spec.as_str())) {
             return Some(format!("parsing {:?} against {:?}: Standard gives <{}>, implementation gives <{}>", input, base.map(|b| b.0), spec, imp));
         }
         // callback / UTF-8 override independence
@@ -158,7 +172,7 @@ fn new_ctx(args: &Args, search: bool) -> Ctx {
 
 fn run_corr(args: &Args, search: bool) -> Report {
     let mut cx = new_ctx(args, search);
-    let thorough = args.tier == "thorough" || search;
+    let thorough = args.tier == "thorough";
     let mut rng = Rng::new(args.seed);
     let bases: Vec<Url> = base_pool().iter().map(|s| Url::parse(s).expect("base")).collect();
 
